@@ -388,9 +388,17 @@ pub fn net_oracles_validate(ctx: &mut Ctx, spec: &NetSpec, net: &mut Network, xs
         }
         let el = ls.iter().sum::<f32>() / ls.len() as f32;
         let ea = accs.iter().sum::<f32>() / accs.len() as f32;
-        ctx.oracle(el.to_bits() == loss.to_bits() || (el.is_nan() && loss.is_nan()), "validate-loss-mean", "validate must return the arithmetic mean of the per-sample objective losses of predict",
+        // the mean of n single-precision numbers: any summation order (or a wider accumulator) is a correct mean,
+        // so compare with the exact mean within n·u·mean|lᵢ| (+ the final division)
+        let n = ls.len() as f64;
+        let exact_l: f64 = ls.iter().map(|v| *v as f64).sum::<f64>() / n;
+        let mag_l: f64 = ls.iter().map(|v| (*v as f64).abs()).sum::<f64>() / n;
+        let ok_l = if !loss.is_finite() || !exact_l.is_finite() { el.to_bits() == loss.to_bits() || (el.is_nan() && loss.is_nan()) || (!loss.is_finite() && !exact_l.is_finite()) }
+            else { ((loss as f64) - exact_l).abs() <= (n + 2.0) * 5.97e-8 * mag_l + 1e-44 };
+        ctx.oracle(ok_l, "validate-loss-mean", "validate must return the arithmetic mean of the per-sample objective losses of predict",
             desc.clone(), format!("{:e}", loss), format!("{:e}", el));
-        ctx.oracle(ea.to_bits() == acc.to_bits(), "validate-accuracy-mean", "validate must return the mean per-sample accuracy (arg-max agreement for soft-max, tolerance otherwise)",
+        let exact_a: f64 = accs.iter().map(|v| *v as f64).sum::<f64>() / n;
+        ctx.oracle(((acc as f64) - exact_a).abs() <= (n + 2.0) * 5.97e-8 * exact_a.abs() + 1e-44, "validate-accuracy-mean", "validate must return the mean per-sample accuracy (arg-max agreement for soft-max, tolerance otherwise)",
             desc, format!("{:e}", acc), format!("{:e}", ea));
     }
 }
@@ -527,11 +535,17 @@ pub fn net_oracles_learn(ctx: &mut Ctx, spec: &NetSpec, net: &Network, job: &Lea
     if is(ctx, &["C04"]) && job.val.is_none() && job.script.is_empty() {
         if let Some((spec_loss, spec_params)) = learn_spec(spec, job) {
             let got = net_params(net);
-            let same_w = got.len() == spec_params.len() && got.iter().zip(spec_params.iter()).all(|(a, b)| same_bits(a, b));
+            // the specification fixes which gradients are summed and when a step is taken, not the association of
+            // the floating-point sums: compare within a rounding-sized tolerance (a wrong batch split, a mean for a
+            // sum, a stale weight or a wrong step number are orders of magnitude larger)
+            let close_vecs = |a: &[f32], b: &[f32]| a.len() == b.len() && a.iter().zip(b.iter()).all(|(x, y)| {
+                (x.is_nan() && y.is_nan()) || x.to_bits() == y.to_bits() || ((*x as f64) - (*y as f64)).abs() <= 2e-5 * (x.abs().max(y.abs()).max(1e-3) as f64)
+            });
+            let same_w = got.len() == spec_params.len() && got.iter().zip(spec_params.iter()).all(|(a, b)| close_vecs(a, b));
             ctx.oracle(same_w, "learn-not-batch-sum-descent",
                 "training must equal: per epoch, consecutive groups of B samples in order, one optimizer step (step number = epoch) per group on the sum of the per-sample gradients at the weights held before the step",
-                desc.clone(), "final weights differ from the specification recomputed from the public per-sample pieces".into(), "bitwise equal weights".into());
-            ctx.oracle(same_bits(tl, &spec_loss), "train-loss-not-mean-of-means", "the epoch's training loss must be the mean over its groups of the mean per-sample loss",
+                desc.clone(), "final weights differ from the specification recomputed from the public per-sample pieces".into(), "equal weights (up to rounding)".into());
+            ctx.oracle(close_vecs(tl, &spec_loss), "train-loss-not-mean-of-means", "the epoch's training loss must be the mean over its groups of the mean per-sample loss",
                 desc.clone(), format!("{:?}", tl), format!("{:?}", spec_loss));
         }
     }
